@@ -565,6 +565,19 @@ func (fr *Frame) enterLoop(lp *Loop, edges []Edge, order []*ssa.BasicBlock) {
 	}
 	// 2. dry run to find the modified set
 	snap := c.Snapshot()
+	// caches that hold terms declared during the dry run must not survive it
+	savedUfApps := map[string][][]Term{}
+	for k, v := range x.ufApps {
+		savedUfApps[k] = append([][]Term(nil), v...)
+	}
+	savedMat := map[string]*SeqV{}
+	for k, v := range x.matSeq {
+		savedMat[k] = v
+	}
+	savedIte := map[string][3]Term{}
+	for k, v := range x.iteDefs {
+		savedIte[k] = v
+	}
 	savedLog, savedLw, savedLogging := x.writeLog, x.lwLog, x.logging
 	savedWild, savedRef := x.wildLog, x.refLog
 	x.writeLog, x.lwLog, x.logging = map[string]bool{}, map[ssa.Value]bool{}, true
@@ -595,6 +608,7 @@ func (fr *Frame) enterLoop(lp *Loop, edges []Edge, order []*ssa.BasicBlock) {
 	x.writeLog, x.lwLog, x.logging = savedLog, savedLw, savedLogging
 	x.wildLog, x.refLog = savedWild, savedRef
 	c.Restore(snap)
+	x.ufApps, x.matSeq, x.iteDefs = savedUfApps, savedMat, savedIte
 	x.cur.names = savedNames
 	// 3. havoc the modified set
 	sh := se.Clone()
